@@ -150,8 +150,7 @@ def css_scan_callbacks(p):
             e = p.resolve_expr(f, call.args[1])
             if e is not None and e.kind == 'func':
                 out.append((f, call, e.obj))
-            else:
-                raise AnalysisError('RNG-SENT: callback of %s in %s is not a plain function reference' % (src_of(call), f.short))
+            # a callable object / bound method / table entry is not followed: the caller reports fewer callbacks than reviewed
     return out
 
 
@@ -165,9 +164,11 @@ def sentinel_types(p):
     after = scan.node.body[scan.node.body.index(loops[0]) + 1:]
     types = set()
     terminal = True
+    cbname = scan.params[1] if len(scan.params) > 1 else 'callback'
     for n in scan.body_nodes():
-        if isinstance(n, ast.Call) and src_of(n.func) == 'notify' and len(n.args) >= 2:
-            d = p.try_const(scan, n.args[1])
+        direct = isinstance(n, ast.Call) and src_of(n.func) == cbname and len(n.args) == 4 and scan.nested.get('notify') is None
+        if (isinstance(n, ast.Call) and src_of(n.func) == 'notify' and len(n.args) >= 2) or direct:
+            d = p.try_const(scan, n.args[3] if direct else n.args[1])
             if d == -1:
                 st = p.enclosing_stmt(scan, n)
                 inside_after = any(st is x or any(y is st for y in ast.walk(x)) for x in after)
@@ -179,8 +180,12 @@ def sentinel_types(p):
                     types.add(src_of(a))
     # notify() default: delimiter = scanner.start (never -1)
     nf = scan.nested.get('notify')
-    if nf is None or 'if delimiter is None:\n        delimiter = scanner.start' not in src_of(nf.node):
-        raise AnalysisError('RNG-SENT: notify() default delimiter changed')
+    if nf is not None and 'if delimiter is None:\n        delimiter = scanner.start' not in src_of(nf.node):
+        from .. import norm, shape
+        nn = norm.nf(p, nf, inline=False)
+        defs = [src_of(x.value) for x in shape.own_nodes(nn) if isinstance(x, ast.Assign) and src_of(x.targets[0]) == 'delimiter']
+        if not defs or any('-1' in d for d in defs) or not all('scanner.start' in d or 'delimiter' in d for d in defs):
+            raise AnalysisError('RNG-SENT: notify() default delimiter changed')
     return types, terminal
 
 
@@ -233,6 +238,8 @@ def rng_sent(p, res):
         raise AnalysisError('RNG-SENT: scan() passes the -1 sentinel nowhere; rule has nothing to decide')
     cbs = css_scan_callbacks(p)
     res.stats['callbacks'] = [cb.short for _, _, cb in cbs]
+    if len(cbs) < 7:
+        res.undecided('callbacks of the css scanner', 'only %d of the 7 reviewed callers pass a function the call graph resolves (a callable object or a dispatch table is not followed): the delimiter flow into the others is not decided' % len(cbs))
 
     def arith_sites(f, valsrc, visited, origin, from_types):
         """yield findings for unguarded arithmetic on expression text `valsrc` in f"""
